@@ -13,12 +13,13 @@ Inductive lk :=
 | LCqWrite | LNotEmpty
 | TMgr              (* pseudo-lock: "the executor manager thread has ended / made progress"; it is what join() and the polling loops wait for *)
 | PWorker           (* pseudo-lock: "that worker process has ended" *)
-| UserCb.           (* pseudo-lock: done-callbacks of a future, run by whoever completes it *)
+| UserCb            (* pseudo-lock: done-callbacks of a future, run by whoever completes it *)
+| WPipe.            (* pseudo-lock: room in the manager's wake-up pipe (only when wakeup() can block), made by the manager's clear() *)
 
 Definition lk_eqb (a b : lk) : bool :=
   match a, b with
   | LFactory, LFactory | LSubmitResize, LSubmitResize | LGlobal, LGlobal | LShutdown, LShutdown | LMgmt, LMgmt | LSlot, LSlot
-  | LExit, LExit | LCqWrite, LCqWrite | LNotEmpty, LNotEmpty | TMgr, TMgr | PWorker, PWorker | UserCb, UserCb => true
+  | LExit, LExit | LCqWrite, LCqWrite | LNotEmpty, LNotEmpty | TMgr, TMgr | PWorker, PWorker | UserCb, UserCb | WPipe, WPipe => true
   | _, _ => false
   end.
 Definition edge_eqb (e f : lk * lk) : bool := lk_eqb (fst e) (fst f) && lk_eqb (snd e) (snd f).
